@@ -73,6 +73,16 @@ def non_numbers(chk):
         probe(f"Container.create_solution(NaCl, water, concentration='1 M', total_quantity='{bad} mL')",
               lambda: Container.create_solution(s, w, concentration='1 M', total_quantity=f"{bad} mL"))
         probe(f"Container('c', '{bad} L')", lambda: Container('c', f"{bad} L"))
+        probe(f"Container.transfer(a, b, '{bad} uL')", lambda: Container.transfer(a, b, f"{bad} uL"))
+    # strings that are not "<number> <unit>" (column-formatted, doubled blank, missing blank, trailing blank): refused by the parser,
+    # hence by every operation that takes a quantity -- whatever unit they name
+    for bad in ('    5 uL', '250  uL', ' 125 uL', '5uL', '5 uL ', '5 u L', '   2 mL', '1  g'):
+        a = Container('a', '1 L', [(w, '10 mL'), (s, '1 g')])
+        b = Container('b', '1 L')
+        p = Plate('p', '500 uL', rows=2, columns=2)
+        probe(f"Container.transfer(a, b, {bad!r})", lambda: Container.transfer(a, b, bad))
+        probe(f"Plate.transfer(a, plate, {bad!r})", lambda: Plate.transfer(a, p, bad))
+        probe(f"a.fill_to(water, {bad!r})", lambda: a.fill_to(w, bad))
     return fails
 
 
@@ -117,7 +127,7 @@ def run(chk, gate, status):
     nn = non_numbers(chk)
     for t in nn[:3]:
         chk.violation(t, {'kind': 'non-number request', 'what': t})
-    cov['non_number_probes'] = 3 * 15
+    cov['non_number_probes'] = 3 * 16 + 8 * 3
     cov['oracle_failures'] += 1 if nn else 0
     return cov
 
